@@ -14,7 +14,8 @@ C03 — Function patterns and symbol geometry are exact for all 40 versions.
                       has the ISO value: data placement, the format writer and all eight masks change
                       only `Data`- and `Format`-typed cells (Proofs/Invariance.lean, Proofs/BuildSound.lean).
 -/
-import FastQr.Finite.Tables
+import FastQr.Finite.TablesAlign
+import FastQr.Finite.TablesFormat
 import FastQr.Proofs.TemplateSound
 import FastQr.Proofs.BuildSound
 
